@@ -114,14 +114,23 @@ def translate(ctx):
         raise ValueError("unrecognised statement in the neighbour loop: %s" % [t for t in texts if t not in known])
     if not any(t.startswith("walk.append") for t in texts):
         raise ValueError("neighbour loop emits no bond")
+    # the walk must be recomputed from topology.bonds on every call: exactly one return (the last statement), no decorator,
+    # no global/nonlocal, no getattr/setattr/hasattr/__dict__, no attribute of an object assigned or deleted
+    fresh = (not fn.decorator_list and isinstance(fn.body[-1], ast.Return) and
+             sum(isinstance(n, ast.Return) for n in ast.walk(fn)) == 1 and
+             not any(isinstance(n, (ast.Global, ast.Nonlocal, ast.Delete)) for n in ast.walk(fn)) and
+             not any(isinstance(n, ast.Name) and n.id in ("getattr", "setattr", "hasattr", "vars", "globals") for n in ast.walk(fn)) and
+             not any(isinstance(n, ast.Attribute) and n.attr == "__dict__" for n in ast.walk(fn)) and
+             not any(isinstance(t, ast.Attribute) for n in ast.walk(fn) if isinstance(n, (ast.Assign, ast.AugAssign, ast.AnnAssign))
+                     for t in (n.targets if isinstance(n, ast.Assign) else [n.target])))
     spec = [roots_ascending, adj_both, True, skip_placed, "placed[%s] = True" % other in texts,
-            "walk.append((%s, %s))" % (atom, other) in texts, "stack.append(%s)" % other in texts]
+            "walk.append((%s, %s))" % (atom, other) in texts, "stack.append(%s)" % other in texts, fresh]
     text = ("(* GENERATED by harness/props/C11.py:translate from mdtraj/core/trajectory.py:_parent_first_bonds -- do not edit *)\n"
             "Require Import MD.Whole.Model.\n"
             "Definition gen_walk_spec : walk_spec := mkWalkSpec %s.\n" % " ".join("true" if b else "false" for b in spec))
     ctx.write_gen("Gen/WholeWalk.v", text)
     ctx.notes.setdefault("coverage_extra", {})["translated_walk_spec"] = dict(zip(
-        ["roots_ascending", "adj_both", "pop_last", "skip_placed", "mark_on_push", "emit_parent_child", "push_new"], spec))
+        ["roots_ascending", "adj_both", "pop_last", "skip_placed", "mark_on_push", "emit_parent_child", "push_new", "fresh"], spec))
 
 
 # ----------------------------------------------------------------------------- generator
@@ -301,6 +310,104 @@ def gen_case(rng):
     return case
 
 
+def gen_history(rng):
+    """a sequence of re-imaging calls and topology / trajectory edits on ONE trajectory object.  The full bond graph
+    belongs to molecules built whole and short; bonds are withheld, added, deleted, atoms sliced away, a small molecule
+    stacked on -- every intermediate bond graph is a subgraph of it, so its molecules are short as well."""
+    kind = rng.choice(["cubic", "ortho", "tric", "tric"])
+    sysd = gen_system(rng, kind, 1)
+    n = len(sysd["frames"][0]["xyz"])
+    full = [list(b) for b in sysd["bonds"]]
+    alive = list(range(n))                      # current index -> original atom id
+    cur = [b for b in full if rng.random() < 0.6]
+    pending = [b for b in full if b not in cur]
+    initial = [list(b) for b in cur]
+    ops = []
+    next_id = n
+
+    def reimage():
+        return {"op": rng.choice(["whole", "image"]), "inplace": rng.random() < 0.5, "make_whole": rng.random() < 0.8,
+                "adopt": rng.random() < 0.5}
+    ops.append(reimage())
+    stacked = False
+    for _ in range(rng.randint(2, 6)):
+        choices = ["copy_top"]
+        addable = [b for b in pending if b[0] in alive and b[1] in alive]
+        if addable:
+            choices += ["add_bond"] * 4
+        if cur:
+            choices += ["del_bond"]
+        if len(alive) > 3:
+            choices += ["atom_slice"]
+        if not stacked:
+            choices += ["stack"]
+        ch = rng.choice(choices)
+        if ch == "add_bond":
+            b = rng.choice(addable)
+            pending.remove(b)
+            cur.append(b)
+            ops.append({"op": "add_bond", "bond": [alive.index(b[0]), alive.index(b[1])]})
+        elif ch == "del_bond":
+            k = rng.randrange(len(cur))
+            pending.append(cur.pop(k))
+            ops.append({"op": "del_bond", "k": k})
+        elif ch == "copy_top":
+            ops.append({"op": "copy_top"})
+        elif ch == "atom_slice":
+            keep = sorted(rng.sample(range(len(alive)), rng.randint(2, len(alive) - 1)))
+            alive = [alive[k] for k in keep]
+            cur = [b for b in cur if b[0] in alive and b[1] in alive]
+            ops.append({"op": "atom_slice", "keep": keep, "inplace": rng.random() < 0.4})
+        else:
+            stacked = True
+            p0 = [rng.randint(0, 2 * G) for _ in range(3)]
+            ops.append({"op": "stack", "xyz": [p0, [p0[0] + rng.randint(60, 120), p0[1] + rng.randint(-60, 60), p0[2]]], "bonds": [[0, 1]]})
+            alive += [next_id, next_id + 1]
+            cur.append([next_id, next_id + 1])
+            next_id += 2
+        if rng.random() < 0.65:
+            ops.append(reimage())
+    if ops[-1]["op"] not in ("whole", "image"):
+        ops.append(reimage())
+    return {"history": True, "frames": sysd["frames"], "bonds": initial, "mol_of": list(range(n)), "ops": ops, "kind": kind,
+            "numbering": "history", "shapes": sysd["shapes"], "sizes": sysd["sizes"], "api": "history", "inplace": False,
+            "make_whole": True, "anchors": None, "others": None, "sorted_bonds": None}
+
+
+def expand_history(c, o):
+    """one pseudo case/out per re-imaging step of a history (the step's own coordinates and bonds at that moment)"""
+    pcs, pos = [], []
+    for si, st in enumerate(o.get("steps") or []):
+        pc = {"frames": [{"xyz_f": st["before"], "cell": c["frames"][0]["cell"]}], "bonds": st["bonds_now"], "api": st["op"],
+              "inplace": st["inplace"], "make_whole": st["make_whole"], "anchors": [], "others": [], "sorted_bonds": None,
+              "kind": c["kind"], "numbering": "history", "shapes": c["shapes"], "sizes": [st["n_atoms"]],
+              "_origin": c, "_step": si}
+        po = dict(st, err=None)
+        pcs.append(pc)
+        pos.append(po)
+    if o.get("err") is not None:
+        pcs.append({"frames": [], "bonds": [], "api": "history", "inplace": False, "make_whole": True, "anchors": [], "others": [],
+                    "sorted_bonds": None, "kind": c["kind"], "numbering": "history", "shapes": c["shapes"], "sizes": c["sizes"],
+                    "_origin": c, "_step": len(pcs)})
+        pos.append({"err": o["err"], "msg": o.get("msg")})
+    return pcs, pos
+
+
+def exact_coords(xyz_f):
+    """float32 values (given as floats) -> (integers, K) with value = integer / 2^K exactly"""
+    from fractions import Fraction
+    fr = [[Fraction(v) for v in p] for p in xyz_f]
+    K = 10
+    for p in fr:
+        for v in p:
+            K = max(K, v.denominator.bit_length() - 1)
+    return [[int(v * (1 << K)) for v in p] for p in fr], K
+
+
+def frame_coords(frame):
+    return np.array(frame["xyz_f"], dtype=np.float64) if "xyz_f" in frame else np.array(frame["xyz"], dtype=np.float64) / G
+
+
 # ----------------------------------------------------------------------------- Coq literals
 def coq_pairs(l):
     return clist(["(%s, %s)" % (cnat(a), cnat(b)) for a, b in l])
@@ -309,10 +416,16 @@ def coq_pairs(l):
 def coq_case(case, f, out):
     fr = out["frames"][f]
     K = fr["K"]
-    sh = K - 10
     b = fr["box"]
+    if "xyz_f" in case["frames"][f]:
+        ints, Kc = exact_coords(case["frames"][f]["xyz_f"])
+        Kt = max(K, Kc)
+        b = [[v << (Kt - K) for v in row] for row in b]
+        pts = [[v << (Kt - Kc) for v in p] for p in ints]
+    else:
+        pts = [[v << (K - 10) for v in p] for p in case["frames"][f]["xyz"]]
     box = "(mkBox %s %s %s %s %s %s)" % tuple(cz(v) for v in (b[0][0], b[1][0], b[1][1], b[2][0], b[2][1], b[2][2]))
-    xyz = clist(["(%s,%s,%s)" % tuple(cz(v << sh) for v in p) for p in case["frames"][f]["xyz"]])
+    xyz = clist(["(%s,%s,%s)" % tuple(cz(v) for v in p) for p in pts])
     srt = "None" if case["sorted_bonds"] is None else "(Some %s)" % coq_pairs(case["sorted_bonds"])
     image = case["api"] == "image"
     anchors = clist([clist([cnat(a) for a in m]) for m in (out.get("anchors_used") or [])]) if image else "[]"
@@ -398,7 +511,7 @@ def recover(case, f, out):
     returns (list of triples, worst residual, translation estimate)"""
     fr = out["frames"][f]
     B = np.array(fr["box"], dtype=np.float64) / float(1 << fr["K"])
-    old = np.array(case["frames"][f]["xyz"], dtype=np.float64) / G
+    old = frame_coords(case["frames"][f])
     new = np.array(fr["new"], dtype=np.float64)
     D = new - old
     if case["api"] == "image":
@@ -416,10 +529,15 @@ def summary(case):
     return {"api": case["api"], "kind": case["kind"], "numbering": case["numbering"], "shapes": case["shapes"],
             "sizes": case["sizes"], "inplace": case["inplace"], "make_whole": case["make_whole"],
             "explicit_anchors": case["anchors"] is not None, "explicit_sorted_bonds": case["sorted_bonds"] is not None,
-            "n_frames": len(case["frames"]), "digest": digest([case["frames"], case["bonds"]])}
+            "n_frames": len(case["frames"]), "digest": digest([case["frames"], case["bonds"]]),
+            "history_step": case.get("_step")}
 
 
-IMPL_KEYS = ("frames", "bonds", "mol_of", "api", "inplace", "make_whole", "anchors", "others", "sorted_bonds")
+IMPL_KEYS = ("frames", "bonds", "mol_of", "api", "inplace", "make_whole", "anchors", "others", "sorted_bonds", "ops")
+
+
+def natoms(c):
+    return len(c["frames"][0].get("xyz_f", c["frames"][0].get("xyz"))) if c["frames"] else 0
 
 
 def run_cases(ctx, cases):
@@ -427,7 +545,18 @@ def run_cases(ctx, cases):
     keep = [i for i, o in enumerate(outs) if o.get("err") != "NotRun"]
     cases = [cases[i] for i in keep]
     outs = [outs[i] for i in keep]
-    ctx.log("implementation ran on %d systems" % len(cases))
+    nh = sum(1 for c in cases if c.get("history"))
+    ex_c, ex_o = [], []
+    for c, o in zip(cases, outs):
+        if c.get("history"):
+            pcs, pos = expand_history(c, o)
+            ex_c += pcs
+            ex_o += pos
+        else:
+            ex_c.append(c)
+            ex_o.append(o)
+    cases, outs = ex_c, ex_o
+    ctx.log("implementation ran on %d systems (%d op histories -> %d re-imaging steps in all)" % (len(cases), nh, sum(1 for c in cases if "_origin" in c)))
     jobs, coq, rec = [], [], {}
     for ci, (c, o) in enumerate(zip(cases, outs)):
         if o["err"] is not None:
@@ -456,7 +585,7 @@ def run_cases(ctx, cases):
     extra0["find_molecules_partitions_compared"] = extra0.get("find_molecules_partitions_compared", 0) + sum(
         1 for (ci, f) in jobs if f == 0 and outs[ci].get("molecules") is not None)
     for ci, f in mols_bad:
-        ctx.fail("Topology.find_molecules does not return the connected components of the bond graph", cases[ci],
+        ctx.fail("Topology.find_molecules does not return the connected components of the bond graph", cases[ci].get("_origin", cases[ci]),
                  observed={"molecules": outs[ci].get("molecules"), "bonds": cases[ci]["bonds"]},
                  expected="Model.find_molecules (Props/C11.v find_molecules_partition_connected)",
                  tags={"api": "find_molecules", "kind": "wrong partition", "explained_by": None})
@@ -479,7 +608,7 @@ def run_cases(ctx, cases):
         ctx.break_("correspondence:run-walk-inconsistent", "coq/Whole/Run.v disagrees with coq/Whole/Model.v")
     if vals and variant is None:
         bad = [j for j in jobs if code_of.get(j) == 3] or [j for j in jobs if code_of.get(j) in (1, 2)]
-        bad.sort(key=lambda j: len(cases[j[0]]["frames"][0]["xyz"]))
+        bad.sort(key=lambda j: natoms(cases[j[0]]))
         ci, f = bad[0]
         ctx.break_("correspondence:whole-model",
                    "neither bond-order variant of the model reproduces the implementation on all frames (codes %s); smallest: %s frame %d -> %s" % (
@@ -539,7 +668,7 @@ def run_cases(ctx, cases):
                             fails.append(("a non-anchor molecule was not wrapped into the cell", {"frame": f, "molecule": m, "centroid": cm.tolist()}, code))
                             break
         ctx.count(summary(c), nontrivial=moved,
-                  bucket="%s/%s/%s/%s%s%s" % (c["api"], c["kind"], c["numbering"], "inplace" if c["inplace"] else "copy",
+                  bucket="%s%s/%s/%s/%s%s%s" % ("history-step/" if "_origin" in c else "", c["api"], c["kind"], c["numbering"], "inplace" if c["inplace"] else "copy",
                                               "" if c["api"] == "whole" or c["make_whole"] else "/nowhole",
                                               "/explicit" if c["anchors"] is not None else ""))
         for desc, detail, code in fails:
@@ -550,7 +679,9 @@ def run_cases(ctx, cases):
             # a run whose frames do not all follow one variant is reported separately as a broken correspondence)
             explained = KNOWN_VARIANT if (desc == "bonded pair left split" and sp == 1 and code in (0, 2, 4)) else None
             api = "make_molecules_whole" if c["api"] == "whole" else "image_molecules"
-            ctx.fail("%s: %s" % (api, desc), c, observed=detail,
+            if "_origin" in c:
+                detail = dict(detail or {}, history_step=c["_step"], bonds_at_that_moment=c["bonds"])
+            ctx.fail("%s: %s" % (api, desc), c.get("_origin", c), observed=detail,
                      expected="lattice moves only; every bonded pair at its minimum-image separation; cells, times and (inplace=False) the original untouched",
                      tags={"api": c["api"], "kind": desc, "explained_by": explained, "numbering": c["numbering"],
                            "explicit_sorted_bonds": c["sorted_bonds"] is not None})
@@ -577,13 +708,14 @@ FIXED_PROBES = [
 
 def correspond(ctx):
     quick = ctx.tier == "quick"
-    cases = [dict(c) for c in FIXED_PROBES] + [gen_case(ctx.rng) for _ in range(1500 if quick else 12000)]
+    cases = [dict(c) for c in FIXED_PROBES] + [gen_case(ctx.rng) for _ in range(1000 if quick else 11000)]
+    cases += [gen_history(ctx.rng) for _ in range(150 if quick else 1500)]
     ctx.log("systems:", len(cases))
     run_cases(ctx, cases)
 
 
 def search(ctx, broken):
-    cases = [gen_case(ctx.rng) for _ in range(300)]
+    cases = [gen_case(ctx.rng) for _ in range(250)] + [gen_history(ctx.rng) for _ in range(50)]
     ctx.log("search: %d more systems" % len(cases))
     run_cases(ctx, cases)
 
